@@ -468,3 +468,197 @@ Definition check_async (tbl : list (string * outcome)) (shell : bool) (sched : l
     let m' := if wave_known then m else mkObs (ob_started m) [] (ob_err m) (ob_out m) in
     (if obs_eqb m' o then 0 else 1)%nat
   else 2%nat.
+
+(** * Vocabulary of the definitions GENERATED from the source (Tie B: Gen/GenC17.v)
+
+    tools/py2coq_c17.py translates pypyr.subproc.Command._run / run and CmdStep.run_step (and
+    the sequential parts of pypyr.aio.subproc) statement by statement into terms over the
+    combinators below: a state-and-exception monad whose state holds what those methods
+    mutate.  Proofs/GenC17Proofs.v proves the generated terms equal to the functions above. *)
+
+(** a [pypyr.subproc.Command] object (the attributes the translated methods read) *)
+Record pycmd := mkPycmd { pc_cmd : srun; pc_is_shell : bool; pc_is_save : bool; pc_is_text : bool }.
+
+(** [subprocess.CompletedProcess] *)
+Record completed := mkCompleted { cp_args : val; cp_returncode : Z; cp_stdout : val; cp_stderr : val }.
+
+Record gst := mkGst {
+  g_trace : list (val * bool);     (* every spawn so far: (args, shell) as given to subprocess.run *)
+  g_self : list res1;              (* [results] of the Command object being run *)
+  g_local : list res1;             (* the local list [results] of CmdStep.run_step *)
+  g_out : cmdout }.                (* context['cmdOut'] *)
+
+Definition set_self (s : gst) (v : list res1) : gst := mkGst (g_trace s) v (g_local s) (g_out s).
+Definition set_local (s : gst) (v : list res1) : gst := mkGst (g_trace s) (g_self s) v (g_out s).
+Definition set_out (s : gst) (v : cmdout) : gst := mkGst (g_trace s) (g_self s) (g_local s) v.
+Definition add_trace (s : gst) (a : val) (sh : bool) : gst :=
+  mkGst (g_trace s ++ [(a, sh)]) (g_self s) (g_local s) (g_out s).
+
+Inductive gout := GOk | GExc (e : perr).
+Definition GR := (gout * gst)%type.
+Inductive gval (A : Type) := GVal (a : A) | GRaise (e : perr).
+Arguments GVal {A} a.
+Arguments GRaise {A} e.
+
+Definition andthen {S} (r : gout * S) (k : S -> gout * S) : gout * S :=
+  match r with (GOk, s) => k s | (GExc e, s) => (GExc e, s) end.
+
+Definition bindv {S A} (r : gval A * S) (k : A -> S -> gout * S) : gout * S :=
+  match r with (GVal a, s) => k a s | (GRaise e, s) => (GExc e, s) end.
+
+(** same, for a method that returns a value *)
+Definition bindvv {S A B} (r : gval A * S) (k : A -> S -> gval B * S) : gval B * S :=
+  match r with (GVal a, s) => k a s | (GRaise e, s) => (GRaise e, s) end.
+
+Definition andthenv {S B} (r : gout * S) (k : S -> gval B * S) : gval B * S :=
+  match r with (GOk, s) => k s | (GExc e, s) => (GRaise e, s) end.
+
+(** [try: body finally: h] — the handler always runs; its own exception replaces the pending one *)
+Definition finally_ {S} (r : gout * S) (h : S -> gout * S) : gout * S :=
+  match r with
+  | (o, s) => match h s with (GOk, s') => (o, s') | (GExc e, s') => (GExc e, s') end
+  end.
+
+(** [try: body except Exception as ex: h] *)
+Definition catch_ {S} (r : gout * S) (h : perr -> S -> gout * S) : gout * S :=
+  match r with (GOk, s) => (GOk, s) | (GExc e, s) => h e s end.
+
+Fixpoint for_each {S A} (l : list A) (body : A -> S -> gout * S) (s : S) : gout * S :=
+  match l with
+  | [] => (GOk, s)
+  | x :: r => andthen (body x s) (for_each r body)
+  end.
+
+(** a loop whose body ends in [if c: break]: the body returns whether to stop *)
+Fixpoint for_each_until {S A} (l : list A) (body : A -> S -> gval bool * S) (s : S) : gout * S :=
+  match l with
+  | [] => (GOk, s)
+  | x :: r =>
+      match body x s with
+      | (GVal true, s') => (GOk, s')
+      | (GVal false, s') => for_each_until r body s'
+      | (GRaise e, s') => (GExc e, s')
+      end
+  end.
+
+Definition raise_new {S} (name : string) (s : S) : gout * S := (GExc (PExn name ""), s).
+
+(** isinstance tests on the [cmd] attribute: a str is BOTH a SimpleCommandType and a Sequence
+    (of its characters), a list only a Sequence *)
+Definition is_simple (r : srun) : bool := match r with RunStr _ => true | RunList _ => false end.
+Definition is_sequence (r : srun) : bool := true.
+Definition as_str (r : srun) : string := match r with RunStr c => c | RunList _ => "" end.
+Fixpoint str_chars (s : string) : list string :=
+  match s with EmptyString => [] | String a r => String a EmptyString :: str_chars r end.
+Definition seq_items (r : srun) : list string :=
+  match r with RunStr c => str_chars c | RunList l => l end.
+
+Definition val_rstrip (v : val) : val :=
+  match v with VStr s => VStr (rstrip s) | VBytes s => VBytes (rstrip s) | _ => v end.
+
+Definition first_res (l : list res1) : res1 :=
+  match l with r :: _ => r | [] => X1 "builtins.IndexError" "list index out of range" end.
+
+(** ** CPython's side of the calls, as the proofs instantiate the generated Section variables.
+    [os args shell] is what the operating system does with an argv. *)
+Definition py_subprocess_run (os : val -> bool -> outcome)
+           (args : val) (capture check text shell : bool) (s : gst) : gval completed * gst :=
+  let s' := add_trace s args shell in
+  match os args shell with
+  | SpawnFail n m => (GRaise (PExn n m), s')
+  | Exited rc o e =>
+      let so := if capture then (if text then VStr o else VBytes o) else VNone in
+      let se := if capture then (if text then VStr e else VBytes e) else VNone in
+      if check && negb (Z.eqb rc 0)
+      then (GRaise (PErr "subprocess.CalledProcessError" args rc so se), s')
+      else (GVal (mkCompleted args rc so se), s')
+  end.
+
+(** [CompletedProcess.check_returncode] *)
+Definition py_check_returncode (cp : completed) (s : gst) : GR :=
+  if Z.eqb (cp_returncode cp) 0 then (GOk, s)
+  else (GExc (PErr "subprocess.CalledProcessError" (cp_args cp) (cp_returncode cp)
+                   (cp_stdout cp) (cp_stderr cp)), s).
+
+(** ** The asynchronous side (pypyr.aio.subproc, sequential parts only; the two gathers are
+    the slot machine above and stay an assumption) *)
+
+(** a spawned process: what [communicate()] will deliver and the exit status afterwards *)
+Record proc := mkProc { pr_returncode : Z; pr_out : val; pr_err : val }.
+
+(** a Command after [asyncio.run] returned, as Commands.run reads it *)
+Record acmdo := mkAcmdo { ao_is_save : bool; ao_results : list rentry }.
+
+Record ast_ := mkAst {
+  a_trace : list (val * bool);     (* spawns: (command as given to create_subprocess_*, shell) *)
+  a_local : list res1;             (* the local [results] of the serial sub-list loop *)
+  a_ran : bool;                    (* asyncio.run(self._run()) has returned *)
+  a_results : list rentry;         (* Commands._results *)
+  a_errors : list perr;            (* the local [errors] of Commands.run *)
+  a_out : cmdout }.                (* context['cmdOut'] *)
+
+Definition aset_trace (s : ast_) (v : list (val * bool)) : ast_ :=
+  mkAst v (a_local s) (a_ran s) (a_results s) (a_errors s) (a_out s).
+Definition aset_local (s : ast_) (v : list res1) : ast_ :=
+  mkAst (a_trace s) v (a_ran s) (a_results s) (a_errors s) (a_out s).
+Definition aset_ran (s : ast_) (v : bool) : ast_ :=
+  mkAst (a_trace s) (a_local s) v (a_results s) (a_errors s) (a_out s).
+Definition aset_results (s : ast_) (v : list rentry) : ast_ :=
+  mkAst (a_trace s) (a_local s) (a_ran s) v (a_errors s) (a_out s).
+Definition aset_errors (s : ast_) (v : list perr) : ast_ :=
+  mkAst (a_trace s) (a_local s) (a_ran s) (a_results s) v (a_out s).
+Definition aset_out (s : ast_) (v : cmdout) : ast_ :=
+  mkAst (a_trace s) (a_local s) (a_ran s) (a_results s) (a_errors s) v.
+
+(** [cmd._results]: empty until the event loop has run the commands *)
+Definition ao_results_now (s : ast_) (c : acmdo) : list rentry :=
+  if a_ran s then ao_results c else [].
+
+(** [raise MultiError(message, errs)]: the list handed to the aggregate error is kept in the state *)
+Definition raise_multi (errs : list perr) (s : ast_) : gout * ast_ :=
+  (GExc (PExn "pypyr.errors.MultiError" ""), aset_errors s errs).
+
+(** accessors on result objects ([SubprocessResult] attributes; junk on exception objects) *)
+Definition res_returncode (r : res1) : Z := match r with R1 _ rc _ _ => rc | X1 _ _ => 0%Z end.
+Definition res_cmd (r : res1) : val := match r with R1 c _ _ _ => c | X1 _ _ => VNone end.
+Definition res_stdout (r : res1) : val := match r with R1 _ _ o _ => o | X1 _ _ => VNone end.
+Definition res_stderr (r : res1) : val := match r with R1 _ _ _ e => e | X1 _ _ => VNone end.
+Definition res_of_exn (e : perr) : res1 :=
+  match e with PExn n m => X1 n m | PErr k _ _ _ _ => X1 k "" end.
+Definition exn_of_res (r : res1) : perr :=
+  match r with X1 n m => PExn n m | R1 _ _ _ _ => PExn "" "" end.
+
+(** isinstance on an element of [_results] *)
+Definition rres_is_exn (r : rentry) : bool := match r with EOne (X1 _ _) => true | _ => false end.
+Definition rres_is_result (r : rentry) : bool := match r with EOne (R1 _ _ _ _) => true | _ => false end.
+Definition rres_is_list (r : rentry) : bool := match r with ESer _ => true | EOne _ => false end.
+Definition rres_as_res (r : rentry) : res1 := match r with EOne x => x | ESer _ => X1 "" "" end.
+Definition rres_as_exn (r : rentry) : perr := exn_of_res (rres_as_res r).
+Definition rres_items (r : rentry) : list res1 := match r with ESer l => l | EOne _ => [] end.
+
+(** the [cmd] argument of the async [_run]: a command line or a list of them *)
+Definition aent_is_list (e : aentry) : bool := match e with ASer _ => true | AOne _ => false end.
+Definition aent_items (e : aentry) : list string := match e with ASer l => l | AOne _ => [] end.
+Definition aent_as_str (e : aentry) : string := match e with AOne c => c | ASer _ => "" end.
+
+Definition perro_truth (o : option perr) : bool := match o with Some _ => true | None => false end.
+Definition perro_get (o : option perr) : perr := match o with Some e => e | None => PExn "" "" end.
+
+(** [bytes.decode(encoding)] on ASCII data *)
+Definition val_decode (v : val) : val := match v with VBytes s => VStr s | _ => v end.
+
+(** the unreachable final [else: raise TypeError] of an exhaustive isinstance chain in a generator *)
+Definition dead_branch {A} : list A := [].
+
+(** ** asyncio's side of the calls *)
+Definition py_create_subprocess (os : val -> bool -> outcome)
+           (args : val) (shell pipe_out pipe_err : bool) (s : ast_) : gval proc * ast_ :=
+  let s' := aset_trace s (a_trace s ++ [(args, shell)]) in
+  match os args shell with
+  | SpawnFail n m => (GRaise (PExn n m), s')
+  | Exited rc o e =>
+      (GVal (mkProc rc (if pipe_out then VBytes o else VNone) (if pipe_err then VBytes e else VNone)), s')
+  end.
+
+Definition py_communicate (p : proc) (s : ast_) : gval (val * val) * ast_ :=
+  (GVal (pr_out p, pr_err p), s).
